@@ -413,6 +413,12 @@ calculate_32bit_addressing: // Label for the 32-bit logic start
 			hasDisp = true
 		}
 
+		// ベースレジスタがない [index*scale+disp] は必ず mod=00 + SIB.base=101 + disp32。
+		// (mod=01/10 のままだと SIB.base=101 が EBP を意味し、アドレスに EBP が加算されてしまう)
+		if mem.BaseReg == "" {
+			mod = 0b00000000
+		}
+
 		// Handle special case: mod=00 and base=EBP ([EBP+index*scale+disp32])
 		// In this case, base field must be 5 (EBP), and a disp32 is always present.
 		if mod == 0b00000000 && baseNum == 5 { // baseNum 5 corresponds to EBP
